@@ -505,7 +505,7 @@ package secretstore
 //@   for C02, C10
 //@   # C10, write order: the chain-key record is written only after the whole window of message keys is stored (a
 //@   # record without its keys would make the sender's messages unopenable for ever: registration is not retried)
-//@   at (*secretStore).putDeviceChainKey requires [C10.order.window-before-record] !caller_isCurrentDeviceChainKey ==>
+//@   at (*secretStore).putDeviceChainKey requires [C10.order.window-before-record] !caller_isCurrentDeviceChainKey && !dsh(s.datastore)[k_ck(pkv(groupPublicKey), pkv(devicePublicKey))] ==>
 //@        (forall j {mkiter(bytes(caller_deviceChainKey.ChainKey), pkv(groupPublicKey), j)} :: 1 <= j && j <= s.preComputedKeysCount ==>
 //@            dsh(s.datastore)[k_pre(pkv(groupPublicKey), pkv(devicePublicKey), caller_deviceChainKey.Counter + j)]
 //@         && dsv(s.datastore)[k_pre(pkv(groupPublicKey), pkv(devicePublicKey), caller_deviceChainKey.Counter + j)] == mkiter(bytes(caller_deviceChainKey.ChainKey), pkv(groupPublicKey), j))
